@@ -101,6 +101,17 @@ def srckey(src):
 RESERVED = ["proc", "logic", "s0", "x", "y", "cnt", "flag", "mem", "r", "st", "t", "first", "second", "producer", "consumer", "fifo"]
 
 
+def same_file(ops):
+    """every design of the history is loaded under ONE file name (a file that is edited and loaded again): functions of
+    different designs then share file name and line numbers"""
+    for op in ops:
+        if op[0] == "compile":
+            if len(op) > 2:
+                op[2] = dict(op[2], fname="<vfgen:design.py>")
+            else:
+                op.append({"fname": "<vfgen:design.py>"})
+
+
 def golden(hs, src, planted_hs=None, opts=None):
     k = (hs, srckey(src + repr(opts) if opts else src))
     g = _golden.get(k)
@@ -191,6 +202,8 @@ def run_one(seed, idx, tier):
             src = v[k] if k in v else p[k][1]
             ops += [["compile", src], ["compile", src]]
             names += [k, k]
+        if ei % 2:
+            same_file(ops)
     elif grp == "A2":
         # adjacent pairs: [reject e, compile d, compile d] for every (d, e)
         di, ei = divmod(j, len(pk))
@@ -257,6 +270,8 @@ def run_one(seed, idx, tier):
         k = vk[rs.below(len(vk))]
         ops += [["compile", v[k]], ["compile", v[k]]]
         names += [k, k]
+        if rs.below(3) == 0:
+            same_file(ops)
     else:
         allsrc = all_sources()
         d = (vk + pk)[j]
